@@ -12,15 +12,20 @@ src = os.path.abspath(sys.argv[1])
 args = sys.argv[2:]
 tier = "quick"
 extra = []
+tag = ""
 i = 0
 while i < len(args):
     if args[i] == "--tier":
         tier = args[i + 1]; i += 1
     elif args[i] == "--props":
         extra = args[i + 1].split(","); i += 1
+    elif args[i] == "--tag":
+        tag = args[i + 1]; i += 1
     i += 1
 meta = json.load(open(os.path.join(src, "meta.json")))
 pid, k = meta["property"], meta["change"]
+tag = tag or meta.get("round_tag", "")
+sid = "%s-%s%s" % (pid, (tag + "-") if tag else "", k)
 env = dict(os.environ, GOFLAGS="-mod=mod", GOPROXY="off", GOSUMDB="off", GOTOOLCHAIN="local")
 d = tempfile.mkdtemp(prefix="seed-%s-%s-" % (pid, k), dir="/tmp")
 repo = os.path.join(d, "repo")
@@ -72,10 +77,12 @@ out["confirmation"] = res
 out["ran"] = "driver/seedcheck.py: scratch copy of /repo at %s; demo on clean copy; full `go test ./...` on patched copy; demo on patched copy; `vcheck -p %s -tier %s` with VERIF_REPO=<patched copy>" % (
     subprocess.run(["git", "-C", "/repo", "log", "--format=%h", "-1"], stdout=subprocess.PIPE, text=True).stdout.strip(), pid, tier)
 if res["confirmed"]:
-    dst = "/verif/seeded/%s-%s" % (pid, k)
+    dst = "/verif/seeded/" + sid
+    out["round_tag"] = tag
     os.makedirs(dst, exist_ok=True)
-    shutil.copy(os.path.join(src, "patch.diff"), dst)
-    shutil.copy(os.path.join(src, "demo_test.go"), dst)
+    if os.path.abspath(dst) != src:
+        shutil.copy(os.path.join(src, "patch.diff"), dst)
+        shutil.copy(os.path.join(src, "demo_test.go"), dst)
     json.dump(out, open(os.path.join(dst, "meta.json"), "w"), indent=1)
-print(json.dumps({"id": "%s-%s" % (pid, k), "confirmed": res["confirmed"], **{k2: v for k2, v in res.items() if k2 != "checks"},
+print(json.dumps({"id": sid, "confirmed": res["confirmed"], **{k2: v for k2, v in res.items() if k2 != "checks"},
                   "checks": res.get("checks")}, indent=None))
